@@ -1,4 +1,6 @@
 import NavisModel.Model.Flow
+import NavisModel.Model.SegAnalysis
+import NavisModel.Model.StrahlerFc
 import NavisModel.Drv.Forest
 /-! Driver commands for C17 (`c17.<cmd>`).  Tables travel in the forest wire format
 (`id:parent:x:y:z[:L]`), synapses as comma separated node ids (one per synapse), columns of the
@@ -133,6 +135,67 @@ def run (cmd rest : String) : Option String :=
         match t.find? (fun r => v r.id != strahlerRule g ((children t r.id).map v)) with
         | some r => pure s!"0 id={r.id} rule={strahlerRule g ((children t r.id).map v)} got={v r.id}"
         | none => pure "0"
+    | _ => none
+  | "bendspec" =>
+    -- pre | post | table → number of post→pre tree paths that bend at each node (`bendSpec`)
+    match parts rest with
+    | [pr, po, tb] => do
+      let t ← parseTable tb
+      let pre ← intList? pr
+      let post ← intList? po
+      pure (showCol t (bendSpec t pre post))
+    | _ => none
+  | "fcspec" =>
+    -- table → tip-path count with the fork rule (`fcSpec`), and per node whether it is off the terminal twigs
+    do
+      let t ← parseTable rest
+      pure (showCol t (fcSpec t))
+  | "strahlerfc" =>
+    -- "greedy ign|- mintwig" | table → navis-fastcore as observed
+    match parts rest with
+    | [a, tb] => do
+      let t ← parseTable tb
+      match words a with
+      | [g, ig, mt] => do
+        let ign ← if ig == "-" then some [] else intList? ig
+        let mt ← mt.toNat?
+        pure (showCol t (strahlerFc t (g == "1") ign mt))
+      | _ => none
+    | _ => none
+  | "twigsok" =>
+    -- "ign|- mintwig" | table | id=val …  → "1" or "0 twig=<segment>"   (eff = ign ++ shortTwigs)
+    match parts rest with
+    | [a, tb, kv] => do
+      let t ← parseTable tb
+      match words a with
+      | [ig, mt] => do
+        let ign ← if ig == "-" then some [] else intList? ig
+        let mt ← mt.toNat?
+        let eff := if mt == 0 then ign else ign ++ shortTwigs t mt
+        let kv ← parseKV kv
+        let v := lookup kv 0
+        if ignoredTwigsOKB t eff v then pure "1"
+        else
+          match (smallSegments t).find? (fun s => !twigOKB t eff v s) with
+          | some s => pure s!"0 twig={showInts s}"
+          | none => pure "0"
+      | _ => none
+    | _ => none
+  | "sa" =>
+    -- radii (id=val, NaN omitted) | table → rows "first:last:nodes:length:chordsq:rootdist:si:radcount:radsum:radmin:radmax:vol3"
+    -- sorted by first, then " # cable totalvol3"
+    match parts rest with
+    | [rd, tb] => do
+      let t ← parseTable tb
+      let kv ← (words rd).mapM fun tok =>
+        match tok.splitOn "=" with
+        | [a, b] => do pure ((← a.toInt?), (← b.toInt?))
+        | _ => none
+      let rad : Int → Option Int := fun i => (kv.find? fun p => p.1 == i).map (·.2)
+      let rows := (segAnalysis t rad).toArray.qsort (fun a b => a.first < b.first) |>.toList
+      pure (" ".intercalate (rows.map fun r =>
+        s!"{r.first}:{r.last}:{r.nodes}:{r.length}:{r.chordSq}:{r.rootDist}:{r.si}:{r.radCount}:{r.radSum}:{r.radMin}:{r.radMax}:{r.volume3}")
+        ++ s!" # {cable t (coordLen t)} {totalVolume3 t rad}")
     | _ => none
   | "seg" => do
     -- "pre:post pre:post …" → 0 | 1 | ? | none
